@@ -1,6 +1,6 @@
 """C03 - attestation statements bind credential, ceremony data and format rules."""
 import json, itertools
-from harness import fw, impl, authsim, regsim, regcat, regrun
+from harness import authcat, fw, impl, authsim, regsim, regcat, regrun
 
 TRUSTED = [
     "Coq 8.16.1 kernel; per-format soundness theorems hold for arbitrary oracles (no cryptographic hypothesis)",
@@ -47,10 +47,16 @@ def run(tier, seed):
                 s = regsim.RScn(fmt, kind, akinds[(i + rep) % len(akinds)])
                 if fmt == "tpm" and rep % 2:
                     s.k["tpm_name_alg"] = ("SHA1", "SHA384", "SHA512")[rep % 3]
-                f(s, rng)
+                authcat.apply(faults, name, s, scope=f"c03:{fmt}:")
                 s.faults = [name]
                 pd, reg = regsim.build(s)
                 B.run_case(regrun.policy_of(pd), reg, rng.choice(("dict", "record")), "reject", f"{name}/{fmt}", scn=s)
+            while authcat.variants_left(name, scope=f"c03:{fmt}:", cap=8):          # every variant of the entry at least once
+                kind = "ES256-P256" if regcat.NEEDS_FAMILY.get(name) == "ec" else kinds[0]
+                s = regsim.RScn(fmt, kind, akinds[0])
+                authcat.apply(faults, name, s, scope=f"c03:{fmt}:")
+                pd, reg = regsim.build(s)
+                B.run_case(regrun.policy_of(pd), reg, "dict", "reject", f"{name}/{fmt}", scn=s)
             if i == 0:
                 chk.sample({"label": f"{name}/{fmt}", "scenario": {k: v for k, v in s.describe().items() if k in ("fmt", "kind", "att_kind", "k")}})
         if fmt == "tpm":
